@@ -182,6 +182,10 @@ def check_shared_writes(smt2, params, spec_):
     sw = {b: [x for x in v if not _is_phi_copy(vc, x)] for b, v in sw.items()}
     if params.get("statics_only"):
         sw = {b: v for b, v in sw.items() if not b.startswith("symex_dynamic::")}
+    if params.get("ignore"):
+        # the harness' own bookkeeping objects (e.g. the logging stand-ins' digests), by name
+        rx = re.compile(params["ignore"])
+        sw = {b: v for b, v in sw.items() if not rx.search(b)}
     sw = {b: v for b, v in sw.items() if v}
     stats["shared_objects_assigned_after_marker"] = sorted(sw)
     stats["assignments_after_marker"] = sum(1 for _ in vc.defs)
